@@ -220,5 +220,11 @@ func (operation *Operation) Validate(ctx context.Context, opts ...ValidationOpti
 		}
 	}
 
+	if v := operation.Servers; v != nil {
+		if err := v.Validate(ctx); err != nil {
+			return fmt.Errorf("invalid servers: %w", err)
+		}
+	}
+
 	return validateExtensions(ctx, operation.Extensions)
 }
